@@ -7,6 +7,12 @@ use solstat::report::report_sections::{optimizations as so, qa as sq, vulnerabil
 use std::collections::{BTreeSet, HashMap};
 
 pub type Entries = Vec<(String, BTreeSet<i32>)>;
+/// the same in the library's own line-number type (the harness keeps building if that type changes)
+pub type LibEntries = Vec<(String, BTreeSet<solstat::analyzer::utils::LineNumber>)>;
+
+pub fn lib_entries(es: &Entries) -> LibEntries {
+    es.iter().map(|(f, ls)| (f.clone(), ls.iter().map(|l| *l as solstat::analyzer::utils::LineNumber).collect())).collect()
+}
 
 /// (detector name, category, section text, severity heading for vulnerabilities)
 pub fn section_table() -> Vec<(&'static str, &'static str, String, Option<&'static str>)> {
@@ -117,7 +123,11 @@ fn parse_total(text: &str, pos: usize, prefix: &str) -> Result<(u64, usize), Str
     let rest = &text[pos + prefix.len()..];
     let end = rest.find(')').ok_or("overview: no closing parenthesis")?;
     let n: u64 = rest[..end].parse().map_err(|_| format!("overview: total is not a number: {:?}", &rest[..end]))?;
-    let expected = if prefix == VULN_PREFIX { sv::overview::report_section_content(n as usize) } else { so::overview::report_section_content(n as usize) };
+    // (the conversion target is whatever integer type the overview function takes: the check keeps building if that changes)
+    fn fit<T: TryFrom<u64>>(n: u64) -> Result<T, String> {
+        T::try_from(n).map_err(|_| format!("overview: the printed total {} does not fit the overview function's own parameter type", n))
+    }
+    let expected = if prefix == VULN_PREFIX { sv::overview::report_section_content(fit(n)?) } else { so::overview::report_section_content(fit(n)?) };
     if !text[pos..].starts_with(expected.as_str()) {
         return Err("overview: text differs from the overview template".into());
     }
@@ -306,24 +316,24 @@ pub fn flatten_map(m: &[(&'static str, Entries)]) -> Vec<(String, String, String
     v
 }
 
-pub fn to_opt_map(m: &[(&'static str, Entries)], order: &[usize], reserve: usize) -> HashMap<O, Entries> {
+pub fn to_opt_map(m: &[(&'static str, Entries)], order: &[usize], reserve: usize) -> HashMap<O, LibEntries> {
     let mut h = HashMap::with_capacity(reserve);
     for &i in order {
-        h.insert(opt_by_name(m[i].0).unwrap(), m[i].1.clone());
+        h.insert(opt_by_name(m[i].0).unwrap(), lib_entries(&m[i].1));
     }
     h
 }
-pub fn to_vuln_map(m: &[(&'static str, Entries)], order: &[usize], reserve: usize) -> HashMap<V, Entries> {
+pub fn to_vuln_map(m: &[(&'static str, Entries)], order: &[usize], reserve: usize) -> HashMap<V, LibEntries> {
     let mut h = HashMap::with_capacity(reserve);
     for &i in order {
-        h.insert(vuln_by_name(m[i].0).unwrap(), m[i].1.clone());
+        h.insert(vuln_by_name(m[i].0).unwrap(), lib_entries(&m[i].1));
     }
     h
 }
-pub fn to_qa_map(m: &[(&'static str, Entries)], order: &[usize], reserve: usize) -> HashMap<Q, Entries> {
+pub fn to_qa_map(m: &[(&'static str, Entries)], order: &[usize], reserve: usize) -> HashMap<Q, LibEntries> {
     let mut h = HashMap::with_capacity(reserve);
     for &i in order {
-        h.insert(qa_by_name(m[i].0).unwrap(), m[i].1.clone());
+        h.insert(qa_by_name(m[i].0).unwrap(), lib_entries(&m[i].1));
     }
     h
 }
